@@ -48,7 +48,11 @@ SPLICES = [b"5\n", b"[1]\n", b"\"x\"\n", b"null\n", b"true\n", b"{}\n", b"{\"tas
            b"{\"timestamp\": 1, \"task_level\": [1]}\n", b"   \n", b"\n", b"\xff\xfe\x00garbage\n",
            b"not json at all\n", b"{\"truncated\": \n", b"\x80\x81\x82\n", b"[1, {\"a\": [2, 3]}]\n",
            b"1.5e3\n", b"\"task_uuid\"\n", b"{\"task_uuid\": \"u\", \"task_level\": [1]}\n", b"-0\n",
-           b"[\"task_uuid\", \"task_level\", \"timestamp\"]\n"]
+           b"[\"task_uuid\", \"task_level\", \"timestamp\"]\n",
+           # foreign text cut off inside a multi-byte UTF-8 character (2-, 3- and 4-byte sequences)
+           b"Traceback: caf\xc3\n", b"price \xe2\x82\n", b"\xf0\x9f\x98\n", b"{\"note\": \"caf\xc3\n",
+           # ... and things that look like the beginning of a JSON object but are not one
+           b"{abc\n", b"{\"task_uuid\": \"u\", \n"]
 
 
 def prepare():
